@@ -421,21 +421,10 @@ func RunHTTPScenario(sc *Scenario) (vd *Verdict) {
 		}
 		where := "after-" + op.K
 		if op.K == "jobsync" && r.superseded {
-			// KF-C09-1: the job completes "its" sync although a client's start has replaced it
+			// the job must not complete "its" sync when a client's start has replaced it (was KF-C09-1)
 			where = "after-jobsync-superseded-by-http-start"
 		}
-		tainted := r.superseded
 		r.superseded = false
-		if tainted {
-			// from here on the hub's sync state no longer follows the protocol (open finding KF-C09-1):
-			// report what is visible now, but do not judge later requests against a model that has diverged
-			if v := r.check(where); v != nil {
-				fail(v, i)
-				return
-			}
-			r.Stats["truncated_after_superseded_job_sync"]++
-			return
-		}
 		if v := r.check(where); v != nil {
 			fail(v, i)
 			return
